@@ -57,6 +57,25 @@ variable (cs : ClockTree)
 
 def get (i : Nat) : ClockDecl := cs.getD i default
 
+/-- what clock `i` has to report, given the configuration it was created with: a derived clock `deriveDecl` of its parent's reported
+    attributes; a root clock the requested value in every field the configuration gives (`mul` = the absolute frequency) -/
+def expectedDecl (i : Nat) (cfg : ClockCfg) (mul : Option Rat) : ClockDecl :=
+  let d := cs.get i
+  match d.parent with
+  | none =>
+    { d with freqOrMul := mul.getD d.freqOrMul, name := cfg.name.getD d.name, resetName := cfg.resetName.getD d.resetName,
+             trig := cfg.trig.getD d.trig, phaseSync := cfg.phaseSync.getD d.phaseSync, rstType := cfg.rstType.getD d.rstType,
+             activeHigh := cfg.activeHigh.getD d.activeHigh }
+  | some pi =>
+    { deriveDecl pi (cs.get pi) (mul.getD 1) cfg with hasNodes := d.hasNodes, minResetTime := d.minResetTime, minResetCycles := d.minResetCycles }
+
+/-- names of the attributes in which two declarations differ -/
+def declMismatch (e d : ClockDecl) : List String :=
+  (if e.freqOrMul != d.freqOrMul then ["frequency"] else []) ++ (if e.trig != d.trig then ["trigger"] else []) ++
+  (if e.rstType != d.rstType then ["resetType"] else []) ++ (if e.activeHigh != d.activeHigh then ["resetActive"] else []) ++
+  (if e.name != d.name then ["name"] else []) ++ (if e.resetName != d.resetName then ["resetName"] else []) ++
+  (if e.phaseSync != d.phaseSync then ["phaseSync"] else [])
+
 /-- `absoluteFrequency()`; fuel = depth bound -/
 def absFreqF : Nat → Nat → Rat
   | 0, _ => 0
